@@ -9,6 +9,7 @@
 //   Inv{t,op,n}         / Resp{t,op,vals:[..]}    op = pop | popn | recv        (a torn / foreign value is logged as -1)
 //   Settle{blocked:[[t,1|2],..]}   every thread inside a call was found asleep (state SLEEPING) at two inspections 10 ms apart:
 //                                  1 = inside send(), 2 = inside recv()
+//   Gate{flavour,reached,dropped}  directed scenario: whether the held thread reached its gate (informational)
 //   Quiesce{left}                  after the final drain (logged as ordinary pops / recvs of thread 8): read_available()
 //   Hang{..}                       a call did not return in time (exit code 4)
 // Judged by spec/Trace_RingA.tla.
@@ -234,7 +235,8 @@ static CIface* make_chan(const std::string& kind, size_t cap, uint64_t yt, uint6
 // ---------------------------------------------------------------------------------------------- programs
 enum OpK { PUSH, PUSHN, SEND, POP, POPN, RECV };
 static const char* opname(int k) { static const char* n[] = {"push", "pushn", "send", "pop", "popn", "recv"}; return n[k]; }
-struct Op { int k; int n; int delay_ms; };      // n: values pushed / asked; delay_ms: long sleep before the call (settle scenarios)
+struct Op { int k; int n; int delay_ms; bool wait_gate; bool release_gate; };   // n: values pushed / asked; delay_ms: long sleep before the call (settle scenarios);
+                                                                            // wait_gate: begin only when the gated partner is held; release_gate: release it after the call
 struct Client {
     int id = 0; bool producer = false; bool photon = false;
     std::vector<Op> prog; uint64_t seed = 0; int next_seq = 1;
@@ -280,6 +282,7 @@ struct Exec {
     std::vector<std::unique_ptr<Client>> cl;
     std::function<void(Client*)> body;
     std::vector<std::thread> os;
+    int gated = 0;          // id of the client that a gate holds (placed on vCPU 1, every other photon client on vCPU 0)
     bool all_done(bool producers, bool consumers) {
         for (auto& c : cl) if (((c->producer && producers) || (!c->producer && consumers)) && !c->done.load()) return false;
         return true;
@@ -291,7 +294,9 @@ struct Exec {
             if (c->photon) {
                 cp->th = thread_create(&client_entry, new std::pair<Exec*, Client*>(this, cp), 256 * 1024);
                 thread_enable_join(cp->th);
+                vtp::reg().set(cp->th, cp->id);
                 auto target = g_vc.vc[r.below(nvc)];
+                if (gated) target = g_vc.vc[cp->id == gated ? 1 : 0];
                 if (target != get_vcpu()) thread_migrate(cp->th, target);
             } else {
                 os.emplace_back([this, cp] { while (!vtp::gate().load()) sched_yield(); body(cp); cp->done = true; });
@@ -373,7 +378,7 @@ static bool exec_queue(const std::string& prim, int ex, vt::Rng& r) {
         c->id = i + 1; c->producer = i < np; c->photon = !os_clients; c->seed = r.next();
         int n = c->producer ? sends[i] : recvs[i - np];
         for (int k = 0; k < n; k++) {
-            Op op; op.delay_ms = 0; op.n = 1;
+            Op op; op.delay_ms = 0; op.n = 1; op.wait_gate = op.release_gate = false;
             if (c->producer) {
                 if (style == "sr" || style == "sp") op.k = SEND;
                 else if (has_batch && r.coin(45)) { op.k = PUSHN; op.n = 1 + (int)r.below(3); }
@@ -401,7 +406,7 @@ static bool exec_queue(const std::string& prim, int ex, vt::Rng& r) {
     Client drainer; drainer.id = 8; drainer.photon = true;
     Client feeder; feeder.id = 9; feeder.photon = true; feeder.producer = true;
     uint64_t waited = 0;
-    Op popop{POP, 1, 0}, pushop{PUSH, 1, 0};
+    Op popop{POP, 1, 0, false, false}, pushop{PUSH, 1, 0, false, false};
     while (!E.all_done(true, true)) {
         if (style == "sp" && (int64_t)Q->read_available() > 0) do_pop(Q, &drainer, popop);
         else if (style == "pr" && E.all_done(true, false) && (int64_t)Q->read_available() <= 0) do_push(Q, &feeder, pushop);
@@ -434,8 +439,13 @@ static bool exec_chan(const std::string& prim, int ex, vt::Rng& r) {
     static const uint64_t YT[] = {0, 0, 1, 4}, YUS[] = {0, 30, 200};
     uint64_t yt = YT[r.below(4)], yus = YUS[r.below(3)];          // small yield budgets: callers reach the semaphore quickly
     bool os_prod = r.coin(35);
-    // flavour: 0 ordinary, 1 lazy producers (consumers sleep on an empty queue), 2 lazy consumers (senders sleep on a full queue)
-    int flavour = (int)r.below(4); if (flavour == 3) flavour = 0;
+    // flavour: 0 ordinary, 1 lazy producers (consumers sleep on an empty queue), 2 lazy consumers (senders sleep on a full queue),
+    // 3 gate R (Dekker window of recv: the consumer is held right before idler.fetch_add while a producer completes send()),
+    // 4 gate S (the producer that found the queue full is held right before send_waiters.fetch_add while a consumer completes recv())
+    int flavour; { unsigned d = (unsigned)r.below(10); flavour = d < 4 ? 0 : d < 6 ? 1 : d < 8 ? 2 : d < 9 ? 3 : 4; }
+    if (flavour >= 3 && g_vcpus < 2) flavour = 0;
+    if (flavour >= 3) { np = nc = 1; nvc = g_vcpus; os_prod = false; }
+    if (flavour == 4) cap = 2;
     std::unique_ptr<CIface> ch(make_chan(kind, cap, yt, yus));
     vt::Ev("Reset").s("prim", prim).s("kind", kind).s("style", "chan").i("ex", ex).i("cap", (int64_t)cap).b("flex", kind.substr(0, 4) == "flex").b("os", os_prod)
         .i("np", np).i("nc", nc).i("vcpus", nvc).s("pfail", "strict").i("start", 0).i("yt", (int64_t)yt).i("yus", (int64_t)yus).i("flavour", flavour);
@@ -443,27 +453,39 @@ static bool exec_chan(const std::string& prim, int ex, vt::Rng& r) {
     std::vector<int> sends(np), recvs;
     int per = flavour == 2 ? (int)cap / np + 2 : 1 + g_ops / 2;
     for (int i = 0; i < np; i++) sends[i] = 1 + (int)r.below(per);
+    if (flavour == 3) sends[0] = 1;
+    if (flavour == 4) sends[0] = (int)cap + 1;
     int S = 0; for (int s : sends) S += s;
     int lo = S > (int)cap ? S - (int)cap : 0;
     int R = lo + (int)r.below(S - lo + 1);
-    if (R < 1) R = 1 <= S ? 1 : 0;
+    if (R < 1) R = 1;
+    if (flavour >= 3) R = 1;
     split(r, R, nc, recvs);
     for (int i = 0; i < np + nc; i++) {
         E.cl.emplace_back(new Client()); auto c = E.cl.back().get();
         c->id = i + 1; c->producer = i < np; c->photon = c->producer ? !os_prod : true; c->seed = r.next();
         int n = c->producer ? sends[i] : recvs[i - np];
         for (int k = 0; k < n; k++) {
-            Op op; op.n = 1; op.k = c->producer ? SEND : RECV; op.delay_ms = 0;
+            Op op; op.n = 1; op.k = c->producer ? SEND : RECV; op.delay_ms = 0; op.wait_gate = op.release_gate = false;
             if (flavour == 1 && c->producer && r.coin(40)) op.delay_ms = 14 + (int)r.below(10);
             if (flavour == 2 && !c->producer && r.coin(50)) op.delay_ms = 14 + (int)r.below(10);
+            if (flavour == 3 && c->producer) op.wait_gate = op.release_gate = true;
+            if (flavour == 4 && !c->producer) op.wait_gate = op.release_gate = true;
             c->prog.push_back(op);
         }
     }
+    // gates: the held thread runs on vCPU 1 (its OS thread spins while it is held), the partner on vCPU 0
+    if (flavour == 3) vtr::arm(2, vtr::H_SEQ, 1);                       // consumer (id 2): first seq_cst operation of recv = idler.fetch_add
+    if (flavour == 4) vtr::arm(1, vtr::H_SEQ, 2 * (int)cap + 1);        // producer (id 1): cap sends with fence + idler.load each, then send_waiters.fetch_add
+    E.gated = flavour == 3 ? 2 : flavour == 4 ? 1 : 0;
     CIface* C = ch.get();
     E.body = [C, yt, yus](Client* c) {
         vt::Rng rr(c->seed);
         for (auto& op : c->prog) {
             if (op.delay_ms) long_sleep(op.delay_ms, c->photon); else pause_a_bit(rr, c->photon);
+            if (op.wait_gate)          // bounded: if the partner never reaches its gate the scenario degenerates to an ordinary one
+                for (int i = 0; i < 400 && !vtr::gate().reached.load() && !vtr::gate().dropped.load(); i++) thread_usleep(100);
+            struct Rel { bool on; ~Rel() { if (on) vtr::gate().release = true; } } rel{op.release_gate};
             c->opno++;
             if (c->producer) {
                 Item it = mk(c->id * 1000 + c->next_seq++);
@@ -510,6 +532,7 @@ static bool exec_chan(const std::string& prim, int ex, vt::Rng& r) {
         if (waited > 20 * 1000 * 1000) { E.hang(prim.c_str()); return false; }
     }
     E.join();
+    if (flavour >= 3) { vt::Ev("Gate").i("flavour", flavour).b("reached", vtr::gate().reached.load()).b("dropped", vtr::gate().dropped.load()); vtr::disarm(); }
     for (int guard = 0; guard < 64; guard++) {
         Item it; bool got = false;
         if (C->has_pop()) {
@@ -535,6 +558,7 @@ int main(int argc, char** argv) {
     g_threads = atoi(vt::arg(argc, argv, "--threads", "4"));
     g_ops = atoi(vt::arg(argc, argv, "--ops", "8"));
     g_wrap4 = vt::flag(argc, argv, "--wrap4");
+    vtr::seed() = g_seed; vtr::level() = vt::flag(argc, argv, "--noperturb") ? 0 : 1;
     if (g_threads > 4) g_threads = 4;
     if (g_threads < 2) g_threads = 2;
     if (g_ops > 9) g_ops = 9;
@@ -547,6 +571,7 @@ int main(int argc, char** argv) {
     vt::Rng r(g_seed * 1000003 + std::hash<std::string>()(prim) % 1000);
     int rc = 0;
     for (int ex = 0; ex < g_execs; ex++) {
+        vtp::reg().clear();
         bool ok = prim == "chan" ? exec_chan(prim, ex, r) : exec_queue(prim, ex, r);
         if (!ok) { rc = 4; break; }
     }
